@@ -134,6 +134,7 @@ type Interp struct {
 	evalMemo       map[*Term]*Term
 	allVars        []*Term
 	NoModelGuide   bool
+	GoroutinesStarted int
 	SharedWrites   []string
 	InitNotes      []string
 	HashUF         bool
